@@ -86,6 +86,9 @@ class StandardGeometry(BaseGeometry):
         # handle case when a = 0
         t[a == 0] = -c[a == 0] / b[a == 0]
 
+        # as for the quadratic roots, an intersection behind the ray is none
+        t[(a == 0) & (t < 0)] = np.inf
+
         return t
 
     def surface_normal(self, rays):
